@@ -1,6 +1,9 @@
 package broker
 
 import (
+	"crypto/rand"
+	"time"
+
 	"github.com/emitter-io/emitter/internal/provider/contract"
 	"github.com/emitter-io/emitter/internal/provider/usage"
 	"github.com/emitter-io/emitter/internal/security"
@@ -93,4 +96,103 @@ func VerifC12(v *verifrt.T) {
 		v.Assert(o, "C12.altered-key-grants-nothing-new")
 	}
 	v.Observe("orig", uint64(verifrt.B2U(o)))
+}
+
+// c12rand (native replay only): crypto/rand.Reader replaced by the draws the executor named
+// "randint", so that the salts CreateKey picks natively are the ones of the counterexample.
+type c12rand struct{ v *verifrt.T }
+
+func (r *c12rand) Read(p []byte) (int, error) {
+	x := r.v.U64("randint")
+	for i := range p {
+		p[len(p)-1-i] = byte(x >> (8 * uint(i)))
+	}
+	return len(p), nil
+}
+
+// VerifC12Splice (license v1, XTEA): the cipher works on three independent 8-byte blocks,
+// so an attacker who holds two issued keys can also build strings out of whole blocks of
+// both. The keys are minted by the real CreateKey from one master key (salts from
+// crypto/rand, arbitrary), encrypted by the real XTEA code under an arbitrary secret; every
+// one of the six mixed block selections is decrypted by the real code and presented to the
+// real Authorize: it must grant nothing that neither of the two issued keys grants.
+func VerifC12Splice(v *verifrt.T) {
+	lic := &license.V1{User: v.U32("lic_contract"), Sign: v.U32("lic_sign")}
+	contracts := contract.NewSingleContractProvider(lic, usage.NewNoop())
+	x := new(cipher.Xtea)
+	verifrt.SetUnexported(x, "key", [4]uint32{v.U32("xk", 0), v.U32("xk", 1), v.U32("xk", 2), v.U32("xk", 3)})
+	svc := &Service{contracts: contracts}
+	svc.keygen = keygen.New(x, contracts, svc)
+	if !v.Symbolic() {
+		saved := rand.Reader
+		rand.Reader = &c12rand{v}
+		defer func() { rand.Reader = saved }()
+	}
+
+	master := security.Key(make([]byte, 24))
+	master.SetSalt(v.U16("msalt"))
+	master.SetMaster(1)
+	master.SetContract(lic.User)
+	master.SetSignature(lic.Sign)
+	master.SetPermissions(security.AllowMaster)
+	masterStr, err := x.EncryptKey(master)
+	v.Assert(err == nil, "C12.env.master")
+
+	t0 := time.Now().Unix()
+	var issued [2]string
+	var hasExp [2]bool
+	var exp [2]uint32
+	targets := []string{"a/", "#/"}
+	for k := 0; k < 2; k++ {
+		access := v.U8("access", k)
+		v.Assume(access&security.AllowMaster == 0)
+		expires := time.Unix(0, 0)
+		hasExp[k] = v.Bool("expires", k)
+		if hasExp[k] {
+			exp[k] = v.U32("exp", k)
+			v.Assume(exp[k] != 0)
+			expires = time.Unix(int64(exp[k])+1262304000, 0)
+		}
+		s, kerr := svc.keygen.CreateKey(masterStr, targets[v.Choice(len(targets), "target", k)], access, expires)
+		v.Assert(kerr == nil && len(s) == 32, "C12.env.issued")
+		issued[k] = s
+	}
+	// the spliced string: block i comes from issued[sel_i]; not all from the same key
+	var sel [3]int
+	for i := range sel {
+		sel[i] = v.Choice(2, "sel", i)
+	}
+	v.Assume(!(sel[0] == sel[1] && sel[1] == sel[2]))
+	var altered []byte
+	if v.Symbolic() {
+		altered = []byte(issued[0]) // transparent codec: the first 24 characters are the raw cipher bytes
+		for i := 0; i < 3; i++ {
+			copy(altered[8*i:8*i+8], issued[sel[i]][8*i:8*i+8])
+		}
+	} else {
+		altered = c12spliceNative(issued, sel)
+	}
+	probe := []string{"a/", "b/"}[v.Choice(2, "probe")]
+	need := v.U8("need")
+	parsed := security.ParseChannel([]byte("K/" + probe))
+	v.Assert(parsed.ChannelType != security.ChannelInvalid, "C12.env.probe-parses")
+	mk := func(key []byte) *security.Channel {
+		return &security.Channel{Key: key, Channel: parsed.Channel, Query: parsed.Query, ChannelType: parsed.ChannelType}
+	}
+	_, _, a := svc.Authorize(mk(altered), need)
+	_, _, o0 := svc.Authorize(mk([]byte(issued[0])), need)
+	_, _, o1 := svc.Authorize(mk([]byte(issued[1])), need)
+	t1 := time.Now().Unix()
+	v.Reach("spliced-probed")
+	// no key involved expires while the three calls are in progress
+	for k := 0; k < 2; k++ {
+		if hasExp[k] {
+			at := int64(exp[k]) + 1262304000
+			v.Assume(at < t0 || at > t1)
+		}
+	}
+	if a {
+		v.Assert(o0 || o1, "C12.spliced-key-grants-nothing-new")
+	}
+	v.Observe("a", uint64(verifrt.B2U(a)))
 }
